@@ -187,6 +187,10 @@ def header_name(base):
 def main(chk):
     quick = chk.tier == 'quick'
     w2c2 = env.build_translator('plain', guard=False)
+    # the other supported build configurations of the translator parse their command line and walk the output directory with their own
+    # code (bundled getopt / dirname / glob replacements, no worker threads): every fourth case runs one of them
+    alt = [env.build_translator('plain', defs=['-DHAS_PTHREAD=0', '-DHAS_UNISTD=1', '-DHAS_GETOPT=1', '-DHAS_LIBGEN=1', '-DHAS_STRDUP=1', '-DHAS_GLOB=1'], tag='c20-nopthread'),
+           env.build_translator('plain', defs=['-DHAS_PTHREAD=1', '-DHAS_UNISTD=1', '-DHAS_GETOPT=0', '-DHAS_LIBGEN=0', '-DHAS_STRDUP=0', '-DHAS_GLOB=1'], tag='c20-bundled')]
     rnd = env.rng('c20')
     modules = []
     for cls, m in [('fac', None), ('coremark', None)]:
@@ -214,7 +218,12 @@ def main(chk):
         cs = make_case(r0, k, root, modules)
         before = snapshot(root)
         log = os.path.join(base_root, 'strace%d.log' % k)
-        r = env.run(['strace', '-f', '-qq', '-e', 'trace=%file', '-o', log, w2c2] + cs['ropts'] + [cs['module'], cs['outarg']],
+        exe = w2c2 if k % 4 else alt[(k // 4) % 2]
+        if exe is alt[0] and '-t' in cs['ropts']:
+            # the build without threads has no -t option
+            i = cs['ropts'].index('-t')
+            cs['ropts'] = cs['ropts'][:i] + cs['ropts'][i + 2:]
+        r = env.run(['strace', '-f', '-qq', '-e', 'trace=%file', '-o', log, exe] + cs['ropts'] + [cs['module'], cs['outarg']],
                     cwd=cs['cwd'], timeout=120)
         after = snapshot(root)
         st = open(log, errors='replace').read() if os.path.exists(log) else ''
